@@ -1,3 +1,105 @@
 import Usual.Common
-/-! Model driver for C20 (stub: not built yet). -/
-def main : IO Unit := IO.println "stub"
+import Usual.C20.Trace
+/-! Model driver for C20: reads the event traces printed by harness/C20/h.c
+    ("trace <scenario>" … event lines … "end") and prints one verdict line per trace:
+    `ok steps=<model steps> events=<n> spurious=<k>` or `reject <event index> <reason>`. -/
+open Usual Usual.C20
+
+def parseWho (s : String) : Option Who :=
+  if s == "W" then some .w else (s.toNat?).map Who.s
+
+def parseSev (s : String) : Option Sev :=
+  if s == "0" then some .none else if s == "S" then some .signal else if s == "T" then some .thread else none
+
+def parseMode (s : String) : Option Mode :=
+  if s == "W" then some .wait else if s == "N" then some .nowait else none
+
+def parseHosts (s : String) : Option (List Nat) :=
+  s.toList.mapM hexVal
+
+def parseEv (ws : List String) : Option Ev :=
+  match ws with
+  | ["begin", i, b, n, m, sv, hs] => do
+    some (.begin (← i.toNat?) (← b.toNat?) (← n.toNat?) (← parseMode m) (← parseSev sv) (← parseHosts hs))
+  | ["lock", i, "I", snap] => do some (.lockI (← i.toNat?) snap.toList)
+  | ["lock", x, "Q", snap] => do some (.lockQ (← parseWho x) snap.toList)
+  | ["lock", "W", "Q"] => some (.lockQ .w [])
+  | ["unlock", i, "I"] => do some (.unlockI (← i.toNat?))
+  | ["unlock", x, "Q"] => do some (.unlockQ (← parseWho x))
+  | ["create", i] => do some (.create (← i.toNat?))
+  | ["malloc", i, _] => do some (.malloc (← i.toNat?))
+  | ["signal", i] => do some (.signal (← i.toNat?))
+  | ["ret", i, b, rc, snap] => do some (.ret (← i.toNat?) (← b.toNat?) (← rc.toInt?) snap.toList)
+  | ["gacall", x, b, k, h] => do some (.gacall (← parseWho x) (← b.toNat?) (← k.toNat?) (← h.toNat?))
+  | ["garet", x, b, k, rc] => do some (.garet (← parseWho x) (← b.toNat?) (← k.toNat?) (← rc.toInt?))
+  | ["notify", x, b, snap] => do some (.notify (← parseWho x) (← b.toNat?) snap.toList)
+  | ["kill", x, t, sl] => do some (.kill (← parseWho x) (← t.toNat?) (← sl.toNat?))
+  | ["sigrecv", i, b, _, snap] => do some (.sigrecv (← i.toNat?) (← b.toNat?) snap.toList)
+  | ["free", "W"] => some .free
+  | ["cwait", "W"] => some .cwait
+  | ["cwret", "W"] => some .cwret
+  | ["poll", i, b, snap] => do some (.poll (← i.toNat?) (← b.toNat?) snap.toList)
+  | ["final", i, b, k, rc, same] => do
+    some (.final (← i.toNat?) (← b.toNat?) (← k.toNat?) (← rc.toInt?) (← same.toNat?))
+  | _ => none
+
+structure TAcc where
+  active : Bool := false
+  tab : List (Nat × Int) := []
+  evs : List Ev := []            -- reversed
+  bad : Option (Nat × String) := none
+  n : Nat := 0
+
+def gaOf (tab : List (Nat × Int)) : Nat → Int := fun h =>
+  match tab.find? (fun p => p.1 == h) with
+  | some p => p.2
+  | none => 12345
+
+def verdict (a : TAcc) : String :=
+  match a.bad with
+  | some (i, msg) => s!"reject {i} {msg}"
+  | none =>
+    let ga := gaOf a.tab
+    match feedAll (ga := ga) { m := Walk.start ga } 0 (a.evs.reverse ++ [Ev.fin]) with
+    | .ok v => s!"ok steps={v.m.sched.length} events={a.n} spurious={v.spurious}"
+    | .error (i, msg) => s!"reject {i} {msg}"
+
+def addLine (a : TAcc) (line : String) : TAcc :=
+  if a.bad.isSome then a else
+  let ws := words line
+  match ws with
+  | ["oracle", k, rc] =>
+    match k.toNat?, rc.toInt? with
+    | some k, some rc => { a with tab := (k, rc) :: a.tab }
+    | _, _ => { a with bad := some (a.n, "unparsable oracle line") }
+  | "crash" :: rest => { a with bad := some (a.n, "CRASH " ++ " ".intercalate rest) }
+  | "timeout" :: _ => { a with bad := some (a.n, "TIMEOUT: the scenario did not complete (lost wake-up / deadlock / lost request)") }
+  | "overflow" :: _ => { a with bad := some (a.n, "event log overflow (runaway loop)") }
+  | "unfilled" :: _ => { a with bad := some (a.n, "event slot never filled") }
+  | "note" :: rest => { a with bad := some (a.n, "unexpected callback/signal: " ++ " ".intercalate rest) }
+  | "bad-op" :: _ => { a with bad := some (a.n, "bad-op") }
+  | ["gacall", _, "-1", _, _] => { a with bad := some (a.n, "getaddrinfo called for something that is not a submitted request") }
+  | _ =>
+    match parseEv ws with
+    | some e => { a with evs := e :: a.evs, n := a.n + 1 }
+    | none => { a with bad := some (a.n, "unparsable event: " ++ line.trimAscii.toString) }
+
+partial def loop (h : IO.FS.Stream) (out : IO.FS.Stream) (a : TAcc) : IO Unit := do
+  let line ← h.getLine
+  if line.isEmpty then
+    out.flush
+    return ()
+  let ws := words line
+  match ws with
+  | "trace" :: _ => loop h out { active := true }
+  | ["end"] =>
+    if a.active then out.putStrLn (verdict a) else out.putStrLn "reject 0 end without trace"
+    out.flush
+    loop h out {}
+  | [] => loop h out a
+  | _ => if a.active then loop h out (addLine a line) else loop h out a
+
+def main : IO Unit := do
+  let stdin ← IO.getStdin
+  let stdout ← IO.getStdout
+  loop stdin stdout {}
